@@ -16,6 +16,8 @@ LEVEL_TEXT = ("Invariant analysis of the only mutators (MIR): dense creation-ord
 LEVEL_NOTE = ("Not decided: model equivalence over all operation histories (≤ 200 operations) — a refinement proof or model-based test, not a "
               "shape fact.  The check establishes the representation invariants that make the model hold.")
 
+WITNESSES = ["W2"]
+
 
 def run(prog, rep):
     rep.rule("E5", "containers are mutated only by their designated functions")
